@@ -56,7 +56,22 @@ with sarm : Type :=
 | AOther (b : sstm).
 
 (* function values the checker plants for `$&& $|| $& $|` *)
-Record reducers : Type := mkReducers { r_all : value; r_any : value; r_and : value; r_or : value }.
+Record reducers : Type := mkReducers { r_all : value; r_any : value; r_and : value; r_or : value;
+  (* `$+` / `$*`: (accepted iterator type, reducer) in the order the implementation lists them *)
+  r_sums : list (ty * value); r_products : list (ty * value) }.
+
+(* reduce.rs::plant — the reducer call chosen by the STATIC type yt of the iterator yi: the reducer
+   whose iterator type yt admits; a `match` over the admitted ones when there are several; the
+   first reducer of the list when yt admits none (element type `!`) *)
+Definition n_plant : name := [105; 116; 101; 114].   (* "iter" *)
+Definition plant_call (f : value) (yi : instr) : instr := IBin FunctionCall (IVar f) (ITuple [yi]).
+Definition plant_reducer (rs : list (ty * value)) (yi : instr) (yt : ty) : outcome instr :=
+  match filter (fun kf => matches (fst kf) yt) rs with
+  | [] => match rs with (_, f) :: _ => Ok (plant_call f yi) | [] => Panic end
+  | [(_, f)] => Ok (plant_call f yi)
+  | adm => Ok (IMatch yi (map (fun kf => ArmType n_plant (fst kf)
+                                  (plant_call (snd kf) (ILocal n_plant (LOther (fst kf))))) adm))
+  end.
 
 (* ---- admissibility of binary operators (bin_op.rs::can_be_used) ---- *)
 Definition assign_ok_single (lhs rhs : ty) (cbu : ty -> ty -> bool) (rtf : ty -> ty -> outcome ty) : outcome bool :=
@@ -303,8 +318,8 @@ Fixpoint check_x (fuel : nat) (sc : scopes) (e : lenv) (x : sx) {struct fuel} : 
         let never := ty_eqb yt TNever in
         let noelem := match iter_element yt with Some _ => false | None => true end in
         match op with
-        | USum => if negb noelem && matches yt ACC_SUM then Ok (IUn USum yi) else reject
-        | UProduct => if negb noelem && matches yt ACC_PRODUCT then Ok (IUn UProduct yi) else reject
+        | USum => if negb noelem && matches yt ACC_SUM then plant_reducer (r_sums red) yi yt else reject
+        | UProduct => if negb noelem && matches yt ACC_PRODUCT then plant_reducer (r_products red) yi yt else reject
         | UAll => if matches yt (TFun [] (TTup [TBool; TBool])) then plant (r_all red) else reject
         | UAny => if matches yt (TFun [] (TTup [TBool; TBool])) then plant (r_any red) else reject
         | UBitAnd => if matches yt (TFun [] (TTup [TBool; TInt])) then plant (r_and red) else reject
